@@ -430,6 +430,15 @@ fn cli_skip_errors(check: &Check) {
                 run += 1;
                 let out = dir.path().join(format!("out{run}"));
                 let names: Vec<String> = list.iter().enumerate().map(|(k, e)| e.map(|i| files[i].0.clone()).unwrap_or_else(|| format!("missing_{k}.bin"))).collect();
+                // every other run extracts into a directory that already holds files of the same names and sizes
+                // with other content (an earlier extraction of another archive): what a read returns is what is written
+                let stale = run % 2 == 0;
+                if stale {
+                    std::fs::create_dir_all(&out).expect("out dir");
+                    for e in list.iter().flatten() {
+                        std::fs::write(out.join(&files[*e].0), vec![0x5Au8; files[*e].1.len()]).expect("stale file");
+                    }
+                }
                 let mut cmd = std::process::Command::new(&cli);
                 cmd.args(["mpq", "extract"]).arg(&arch).arg("-o").arg(&out);
                 if let Some(t) = threads {
@@ -449,7 +458,7 @@ fn cli_skip_errors(check: &Check) {
                 let n_missing = list.iter().filter(|e| e.is_none()).count();
                 check.count(&format!("cli:names{}:missing{}:skip{}:thr{}", list.len(), n_missing.min(2), skip as u8, threads.map(|t| t.to_string()).unwrap_or("-".into())), n_missing > 0);
                 let shown = format!("`mpq extract a.mpq -o out{}{} -- {}` → exit {:?}, stderr {:?}", threads.map(|t| format!(" --threads {t}")).unwrap_or_default(), if skip { " --skip-errors" } else { "" }, names.join(" "), o.status.code(), engine::truncate(&String::from_utf8_lossy(&o.stderr), 200));
-                let case = json!({"cli": {"names": names, "skip_errors": skip, "threads": threads}});
+                let case = json!({"cli": {"names": names, "skip_errors": skip, "threads": threads, "stale_files_in_output_directory": stale}});
                 if n_missing > 0 && !skip {
                     if o.status.success() {
                         check.fail(&engine::Fail::new("cli-extract-exit0-with-missing-name-without-skip-errors", shown.clone()), case.clone());
